@@ -43,12 +43,13 @@ Print Assumptions C19_warning_block_legacy_refuted.
 (** However often regeneration is repeated: for every set of resolver files, every set of resolvers the schema
     calls for (each (receiver, method) in one file, no receiver called like the root type) and whatever text the
     templates render around them, after k+1 runs the resolver found for a field that still exists carries the
-    body the user wrote, and the user's doc text when there was one. *)
+    body the user wrote, its result list as written (named results included), and the user's doc text when there was one. *)
 Theorem C19_user_body_survives_repetition :
   forall method_src access_src struct_src stub_body default_doc lv before k l m p,
   wf_live lv = true -> In l lv -> In m (l_methods l) -> prev_decl before (fst m) (snd m) = Some p ->
   let after := regen_n method_src access_src struct_src stub_body default_doc copied (S k) lv before in
   option_map d_body (prev_decl after (fst m) (snd m)) = Some (d_body p) /\
+  option_map d_results (prev_decl after (fst m) (snd m)) = Some (d_results p) /\
   (String.eqb (d_doc p) "" = false -> option_map d_doc (prev_decl after (fst m) (snd m)) = Some (d_doc p)).
 Proof. exact user_body_survives_lemma. Qed.
 Print Assumptions C19_user_body_survives_repetition.
@@ -69,8 +70,8 @@ Print Assumptions C19_second_run_only_drops_the_block.
 (** Non-vacuity: a file with a kept resolver, a removed resolver and a helper. *)
 Open Scope string_scope.
 Example C19_nonvacuous :
-  let m r n b := {| d_kind := KMethod r n; d_doc := ""; d_rawdoc := ""; d_body := b; d_src := "func (r *" ++ r ++ ") " ++ n ++ "() { " ++ b ++ " }" |} in
-  let h := {| d_kind := KFunc "helper"; d_doc := ""; d_rawdoc := ""; d_body := ""; d_src := "func helper() {}" |} in
+  let m r n b := {| d_kind := KMethod r n; d_doc := ""; d_rawdoc := ""; d_body := b; d_results := ""; d_src := "func (r *" ++ r ++ ") " ++ n ++ "() { " ++ b ++ " }" |} in
+  let h := {| d_kind := KFunc "helper"; d_doc := ""; d_rawdoc := ""; d_body := ""; d_results := ""; d_src := "func helper() {}" |} in
   let f := {| f_name := "a.resolvers.go"; f_imports := []; f_decls := [m "queryResolver" "Kept" "body one"; m "queryResolver" "Gone" "body two"; h]; f_remaining := None |} in
   let lv := [{| l_file := "a.resolvers.go"; l_methods := [("queryResolver", "Kept")]; l_structs := ["queryResolver"]; l_access := ["Query"]; l_root := false |}] in
   remaining_source lv f = "func (r *queryResolver) Gone() { body two }\nfunc helper() {}"
@@ -78,7 +79,7 @@ Example C19_nonvacuous :
 Proof. vm_compute. split; reflexivity. Qed.
 Example C19_regen_nonvacuous :
   let lv := [{| l_file := "a.resolvers.go"; l_methods := [("queryResolver", "Kept"); ("queryResolver", "New")]; l_structs := ["queryResolver"]; l_access := ["Query"]; l_root := false |}] in
-  let m r n b := {| d_kind := KMethod r n; d_doc := "Kept does it."; d_rawdoc := "Kept does it."; d_body := b; d_src := r ++ "." ++ n ++ "{" ++ b ++ "}" |} in
+  let m r n b := {| d_kind := KMethod r n; d_doc := "Kept does it."; d_rawdoc := "Kept does it."; d_body := b; d_results := ""; d_src := r ++ "." ++ n ++ "{" ++ b ++ "}" |} in
   let f := {| f_name := "a.resolvers.go"; f_imports := []; f_decls := [m "queryResolver" "Kept" "return 1"; m "queryResolver" "Gone" "return 2"]; f_remaining := None |} in
   let run := regen_n (fun r n b => r ++ "." ++ n ++ "{" ++ b ++ "}") (fun a => a) (fun s => s) (fun _ _ => "panic()") (fun _ n => n ++ " is the resolver.") copied in
   wf_live lv = true /\
